@@ -587,6 +587,10 @@ TESTS = [
                      "cancel", "refused_inf", "refused_b", "ok", "tweak_add_equiv"]),
     Test("blind_sums", blindsum_case, run_blindsum, quick=2400, thorough=40000, cfgs=_CFG, max_workers=6,
          must_cover=["sum_ok", "sum_overflow", "bgbs_ok", "bgbs_overflow", "n=0", "one_sided"]),
+    Test("commit_cfg", commit_case, run_commit, quick=500, thorough=4000, max_workers=3,
+         cfgs={"quick": ["int64", "struct"], "thorough": ["int64", "struct", "noasm"]}, must_cover=["ok", "refused_b"]),
+    Test("blind_sums_cfg", blindsum_case, run_blindsum, quick=600, thorough=4000, max_workers=3,
+         cfgs={"quick": ["int64", "struct"], "thorough": ["int64", "struct", "noasm"]}, must_cover=["sum_ok", "sum_overflow", "bgbs_ok"]),
     Test("tally", tally_case, run_tally, quick=1500, thorough=30000, cfgs=_CFG, max_workers=8,
          must_cover=["tally=1", "tally=0", "balanced_by_helper", "completed_blind_sum", "completed_bgbs", "empty_side", "both_empty", "multi_generator",
                      "unbalanced_one_unit_rejected", "raw_parsed", "H_and_minus_H", "long_list", "perturb:drop", "perturb:b+1"]),
